@@ -44,7 +44,7 @@ CHECKS = {
          "Generated abstract FIBEX models rendered under two independent layouts (1..4 files listed in an order that differs from the lexicographic path order, element and child order, prefixes, reference style, noise; ids also longer than 4 bytes / multi-byte); gather_fibex_data must equal the independent assembly and both layouts must load equally; extract_metadata lookups are checked for present and absent ids. Layouts also document (DESC) elements whose description is not part of the model and give files modification times in the past and in the future; a reload history rewrites files in place.",
          "Document shapes the statement is silent about are not generated (listed in the evidence assumptions); trusts the vocabulary table in harness/src/gen/fibex.rs.", "DESIGN.md 4/C11"),
  "C12": ("fault_enumeration", "fault injection with per-document exhaustive truncation, element/attribute deletion and byte corruption, judged in a child process by consumed CPU time",
-         "Every truncation offset of both sample files and of generated document sets; every document that is a sequence of at most 4 (thorough: 5) of 30 markup tokens (bounded-exhaustive); sampled subtree / tag / attribute deletions, byte corruptions, duplicated slices, combinations of up to three damages, 'element-level damage, then every truncation offset behind it', damaged members of multi-file sets and special path sets; each load runs in an evaluator child and must answer model/refused within 10 s of CPU; panic, child death or budget exhaustion is a violation. Thorough adds a libFuzzer campaign on document bytes whose hang candidates are re-judged by the same evaluator. Files also carry modification times in the past and in the future.",
+         "Every truncation offset of both sample files and of generated document sets; every document that is a sequence of at most 4 (thorough: 5) of 33 markup tokens, among them comments that are complete and comments shorter than their delimiters (bounded-exhaustive); sampled subtree / tag / attribute deletions, byte corruptions, duplicated slices, combinations of up to three damages, 'element-level damage, then every truncation offset behind it', damaged members of multi-file sets and special path sets; each load runs in an evaluator child and must answer model/refused within 10 s of CPU; panic, child death or budget exhaustion is a violation. Thorough adds a libFuzzer campaign on document bytes whose hang candidates are re-judged by the same evaluator. Files also carry modification times in the past and in the future.",
          "Non-termination is decided by a CPU-time budget (10^4 x the normal cost), not proved; damage other than truncation is sampled.", "DESIGN.md 2.5, 4/C12"),
  "C13": ("exploration", "property-based testing against a reference packing, with exhaustive truncation per case (+ libFuzzer in the thorough tier)",
          "Lists of supported signal types with values are packed by a reference encoder in the stated byte order; exact and exact+trailing payloads must decode to one bit-equal argument per type carrying the given type info, every proper truncation and a string made invalid UTF-8 at every byte position in turn must be refused, lists of up to 300 signals, fixed-point kinds must not panic. Bounded-exhaustive section: every trailing length 0..=1300 behind a closing string/raw field of 0..=5 bytes.",
